@@ -12,7 +12,7 @@ C17 — what the property demands of `full_ln`, stated independently of the pand
     * the last note: unchanged (kind and length).
 
 `specB` is the executable form evaluated on the implementation's output by the driver
-(`specB_sound : specB … = true → Spec …` is proved in `Props/C17.lean`).  Core Lean only.
+(`specB_iff : specB … = true ↔ Spec …` is proved in `Props/C17.lean`).  Core Lean only.
 -/
 import Reamber.Model.FullLN
 
@@ -57,17 +57,13 @@ def sortedB : List Row → Bool
   | a :: b :: t => decide (a.offset ≤ b.offset) && sortedB (b :: t)
 
 /-- candidate processing orders of a column: the stable order with each note of the latest time in turn moved
-to the end (only the identity of the *last* note can make a difference; every candidate is re-checked by
-`colSpecB`, so nothing is assumed about this function) -/
+to the end (only the identity of the *last* note can make a difference).  Every candidate is re-checked by
+`colSpecB`, so soundness assumes nothing about this function; completeness (`specB_complete`) uses it. -/
 def candidates (I : List Row) : List (List Row) :=
   let s := sortByOffset I
   match s.getLast? with
   | none => []
-  | some last =>
-    (List.range s.length).filterMap (fun j =>
-      match s[j]? with
-      | some r => if r.offset == last.offset then some (s.eraseIdx j ++ [r]) else none
-      | none => none)
+  | some last => (s.filter (fun x => x.offset == last.offset)).map (fun x => s.erase x ++ [x])
 
 def colSpecB (gap thr : Rat) (I O : List Row) : Bool :=
   if I.isEmpty then O.isEmpty
